@@ -311,6 +311,79 @@ def _fs_was_args(tier):
     yield (FS([["ab", list(PLAIN)]]), slice(0, 1, 1))
 
 
+def _splice_args(tier):
+    """FmtStr.splice(new, start[, end]): every layout of up to 3 runs over ("", "a", "bc") x 2 attribute sets, 7 operands
+    (str incl. "", FmtStr without runs / with an empty run / several runs), every start and end within -1 .. len+2,
+    end None and end omitted (the default); quick: all for up to one run, a sample beyond"""
+    news = ["", "X", "YZ", FS([]), FS([["", list(RED)]]), FS([["P", list(BOLD_ON_BLUE)]]),
+            FS([["Q", list(PLAIN)], ["", list(RED)], ["RS", list(RED)]])]
+    k = 0
+    for runs in _layouts(["", "a", "bc"], [PLAIN, RED], 3):
+        n = sum(len(t) for t, _ in runs)
+        every = 1 if (tier == "thorough" and len(runs) < 3) or len(runs) < 2 else \
+            (3 if tier == "thorough" else (17 if len(runs) == 2 else 151))
+        for new in news:
+            for start in range(-1, n + 3):
+                for end in ["omitted", None] + list(range(-1, n + 3)):
+                    k += 1
+                    if k % every:
+                        continue
+                    if end == "omitted":
+                        yield (FS(runs), new, start)
+                    else:
+                        yield (FS(runs), new, start, end)
+    wide = [["a" + WIDE + COMB, list(BOLD_ON_BLUE)], ["", list(PLAIN)], [COMB + "xy", list(RED)]]
+    for start in range(0, 7):
+        for end in (None, start, start + 1, 6):
+            yield (FS(wide), WIDE + CTRL, start, end)
+            yield (FS(wide), FS(wide), start, end)
+
+
+OPERANDS = ["", "X", "YZ", FS([]), FS([["", list(RED)]]), FS([["P", list(BOLD_ON_BLUE)]]),
+            FS([["Q", list(PLAIN)], ["", list(RED)], ["RS", list(RED)]])]
+
+
+def _add_args(tier):
+    """FmtStr.__add__(other) / __radd__(other): every layout of up to 2 (thorough: 3) runs x str operands (any str: this
+    path does not parse -- an escape sequence stays text) and FmtStr operands"""
+    for runs in _layouts(["", "a", "bc"], [PLAIN, RED], 3 if tier == "thorough" else 2):
+        for other in OPERANDS + ["\x1b[31mz", WIDE + COMB]:
+            yield (FS(runs), other)
+
+
+def _append_args(tier):
+    for runs in _layouts(["", "a", "bc"], [PLAIN, RED], 3 if tier == "thorough" else 2):
+        for new in OPERANDS:
+            yield (FS(runs), new)
+
+
+def _setslice_args(tier):
+    """FmtStr.setslice_with_length(start, end, fs, length): layouts of up to 2 runs, every start / end within -1 .. len+2
+    (padding on the left, on the right, the assert), length limits around the result's length; quick: a sample"""
+    k = 0
+    for runs in _layouts(["", "a", "bc"], [PLAIN, RED], 2):
+        n = sum(len(t) for t, _ in runs)
+        every = 1 if tier == "thorough" else (7 if len(runs) < 2 else 37)
+        for fs in OPERANDS:
+            for a in range(-1, n + 3):
+                for b in range(-1, n + 3):
+                    for length in (n, n + 1, 0, n + 5):
+                        k += 1
+                        if k % every == 0:
+                            yield (FS(runs), a, b, fs, length)
+
+
+def _setitem_args(tier):
+    k = 0
+    for runs in _layouts(["", "a", "bc"], [PLAIN, RED], 3 if tier == "thorough" else 2):
+        n = sum(len(t) for t, _ in runs)
+        for fs in OPERANDS:
+            for i in range(-2, n + 3):
+                k += 1
+                if tier == "thorough" or len(runs) < 2 or k % 3 == 0:
+                    yield (FS(runs), i, fs)
+
+
 FMT_CHARS = "abcdxy" + WIDE + COMB + CTRL
 
 EMPTY = "empty_ctx"
@@ -318,6 +391,13 @@ FUNCS = {
     # methods / properties of FmtStr (the key is used in file names: no dot; the qualified name is the fifth entry)
     "FmtStr_getitem": ("curtsies.formatstring", "py_FmtStr_getitem", _getitem_args, "ctxF0", "FmtStr.__getitem__"),
     "FmtStr_divides": ("curtsies.formatstring", "py_FmtStr_divides", _divides_args, "ctxF0", "FmtStr.divides"),
+    "FmtStr_splice": ("curtsies.formatstring", "py_FmtStr_splice", _splice_args, "ctxF3", "FmtStr.splice"),
+    "FmtStr_add": ("curtsies.formatstring", "py_FmtStr_add", _add_args, "ctxF3", "FmtStr.__add__"),
+    "FmtStr_radd": ("curtsies.formatstring", "py_FmtStr_radd", _add_args, "ctxF3", "FmtStr.__radd__"),
+    "FmtStr_append": ("curtsies.formatstring", "py_FmtStr_append", _append_args, "ctxF4", "FmtStr.append"),
+    "FmtStr_setslice_with_length": ("curtsies.formatstring", "py_FmtStr_setslice_with_length", _setslice_args, "ctxF4",
+                                    "FmtStr.setslice_with_length"),
+    "FmtStr_setitem": ("curtsies.formatstring", "py_FmtStr_setitem", _setitem_args, "ctxF5", "FmtStr.setitem"),
     "width_aware_slice": ("curtsies.formatstring", "py_width_aware_slice", _was_args, "(PureCorr.cF1 fmt_widths)"),
     "FmtStr_width_aware_slice": ("curtsies.formatstring", "py_FmtStr_width_aware_slice", _fs_was_args,
                                  "(PureCorr.cF2 fmt_widths)", "FmtStr.width_aware_slice"),
